@@ -1,4 +1,5 @@
 """C11: sam variants and variants agree on the same alignment."""
+import random
 import common as cm
 import cmdlayer
 import gen
@@ -112,7 +113,14 @@ def generate(ctx):
                 i = rng.randrange(L)
                 g2[i] = rng.choice([c for c in "ACGT" if c != g2[i]])
             genome = "".join(g2)
-        refb = gen.layout(rng, [("REF", genome)], "plain")
+        # the -r record need not carry the name the SAM header gives the reference (@SQ SN:REF): a query whose QNAME is that
+        # SN name is then a query like any other, with a row in both commands (drawn from a PRNG of its own)
+        fid = "REF"
+        wr = random.Random(31 * cid + 7)
+        if from_file and edge and wr.random() < 0.3:
+            fid = "refseq1"
+            edge[0]["name"] = "REF"
+        refb = gen.layout(rng, [(fid, genome)], "plain")
         samb = samgen.render_sam("REF", L, recs, trail=rng.random() > 0.12)
         append = rng.random() < 0.6
         s, e = (-1, -1)
@@ -135,7 +143,7 @@ def generate(ctx):
         cs.append({"id": cid, "go": go, "coq": coq, "meta": {"kind": "%s:%s" % (suffix, "file" if from_file else "anno"), "nontrivial": nontriv},
                    "sample": {"sam": samb.decode(), "reference": genome, "suffix": suffix, "annotation": annob.decode(), "start": s, "end": e,
                               "append_snps": append, "ref_from_file": from_file},
-                   "info": {"recs": recs, "genome": genome, "annob": annob, "suffix": suffix, "samb": samb, "refb": refb}})
+                   "info": {"recs": recs, "genome": genome, "annob": annob, "suffix": suffix, "samb": samb, "refb": refb, "refid": fid}})
     return cs
 
 
@@ -166,6 +174,7 @@ def post_go(ctx, cases, obs):
     res1 = cm.go_run(stage, ctx.log)
     stage2 = []
     plan2 = []
+    pair_skipped = {}
     nid = 0
     for kind, c, sid, names in plan:
         info = c["info"]
@@ -180,6 +189,11 @@ def post_go(ctx, cases, obs):
             # one variants run per query file: reference row first (named REF), then the query row
             for chunk in out.split("==")[2::2]:
                 msa = chunk.lstrip("\n").encode()
+                if info["refid"] != "REF" and msa.count(b">REF") > 1:
+                    # toPairAlign names the reference row after @SQ SN: the pair of a query with that very QNAME holds two records of
+                    # one name, which `variants -r NAME` cannot be asked about; that query is compared on the toMultiAlign form only
+                    pair_skipped.setdefault(c["id"], set()).add("REF")
+                    continue
                 stage2.append({"id": nid, "op": "variants", "msa": cm.b64(msa), "refid": "REF", "anno": cm.b64(info["annob"]),
                                "suffix": info["suffix"], "start": g["start"], "end": g["end"], "append_snps": g["append_snps"], "threads": 1})
                 plan2.append(("pair", c, nid))
@@ -191,8 +205,8 @@ def post_go(ctx, cases, obs):
             recs = [(rows[i][1:], rows[i + 1]) for i in range(0, len(rows), 2)]
             keep = [(n, s) for n, s in recs if n in noins]
             if keep:
-                msa = gen.layout(ctx.rng, [("REF", info["genome"])] + keep, "plain")
-                stage2.append({"id": nid, "op": "variants", "msa": cm.b64(msa), "refid": "REF", "anno": cm.b64(info["annob"]),
+                msa = gen.layout(ctx.rng, [(info["refid"], info["genome"])] + keep, "plain")
+                stage2.append({"id": nid, "op": "variants", "msa": cm.b64(msa), "refid": info["refid"], "anno": cm.b64(info["annob"]),
                                "suffix": info["suffix"], "start": g["start"], "end": g["end"], "append_snps": g["append_snps"], "threads": 2})
                 plan2.append(("pad", c, nid))
                 nid += 1
@@ -203,7 +217,7 @@ def post_go(ctx, cases, obs):
             pair_names.setdefault(c["id"], set()).update(n for n, _ in anno.parse_rows(cm.unb64(res2[sid]["out"]))[1])
     for c in cases:
         if c["id"] in pair_names and obs[c["id"]]["status"] == "ok":
-            extra_rows = [n for n, _ in anno.parse_rows(cm.unb64(obs[c["id"]]["out"]))[1] if n not in pair_names[c["id"]]]
+            extra_rows = [n for n, _ in anno.parse_rows(cm.unb64(obs[c["id"]]["out"]))[1] if n not in pair_names[c["id"]] and n not in pair_skipped.get(c["id"], ())]
             if extra_rows:
                 c["sample"].setdefault("oracle_problems", []).append("sam variants has a row for %r; variants on the toPairAlign pairs reports no such row" % extra_rows)
                 if c not in bad:
